@@ -11,6 +11,7 @@ pub mod c15;
 pub mod c16;
 pub mod c17;
 pub mod c19;
+pub mod c20;
 pub mod jobs;
 
 pub struct CheckDef {
@@ -35,6 +36,7 @@ pub fn all() -> Vec<CheckDef> {
     v.push(c16::def());
     v.push(c17::def());
     v.push(c19::def());
+    v.push(c20::def());
     v
 }
 
